@@ -458,8 +458,9 @@ class DriverLubaRs232(DriverSerialBase):
                     f"LUBA RX DALI queue not empty! {qlen} items in queue!"
                 )
                 try:
-                    item = self._queue_rx_raw_dali.get_nowait()
-                    _LOG.critical(f"LUBA RX DALI queue discarding: {item}")
+                    while True:
+                        item = self._queue_rx_raw_dali.get_nowait()
+                        _LOG.critical(f"LUBA RX DALI queue discarding: {item}")
                 except asyncio.QueueEmpty:
                     pass
 
@@ -1300,8 +1301,11 @@ class DriverSCIRS232(DriverSerialBase):
                     f"SCI RS232 RX DALI queue not empty! {qlen} items in queue!"
                 )
                 try:
-                    item = self._queue_rx_raw_dali.get_nowait()
-                    _LOG.critical(f"SCI RS232 RX DALI queue discarding: {item}")
+                    while True:
+                        item = self._queue_rx_raw_dali.get_nowait()
+                        _LOG.critical(
+                            f"SCI RS232 RX DALI queue discarding: {item}"
+                        )
                 except asyncio.QueueEmpty:
                     pass
 
